@@ -103,6 +103,72 @@ def must_use(ex, res, lid: int, P: Term, after_uid: int):
     return uncovered, len(consumers)
 
 
+def line_parser_rules(prog, chk, pid):
+    """the text-level line parser: a ':' line is hex decoded and read as U16be index, U8 tag type, U8 length, that many tag bytes; the record
+    handed on carries (tag type, index, tag bytes, whole line) in the slots the consumers read them from; FF closes a group, FE is skipped"""
+    P_ = lambda s: "%s.%s" % (pid, s)
+    fi = prog.method(BF3 + ".Bf3File", "parse_bf2_file")
+    ex = Exec(prog, policy=pol_rd)
+    res = ex.run(fi)
+    where = "%s:%d" % (fi.file, fi.lineno)
+    rds = [r for r in extract_readers(ex, res.events).values() if r.raw is not None and r.fields()]
+    ok, why = len(rds) == 1 and len(rds[0].fields()) == 4, "a data line is not read through one reader as four fields (found %s)" % [len(r.fields()) for r in rds]
+    if ok:
+        ndx, typ, ln, tag = rds[0].fields()
+        raw = unsnap(rds[0].raw)
+        sizes_ok = [is_const(f.size) and cval(f.size) == n and bool(f.int_views) and f.order == "big" and not getattr(f, "signed", False) for f, n in ((ndx, 2), (typ, 1), (ln, 1))]
+        ok = all(sizes_ok)
+        why = "the header of a data line is not U16 big-endian index, U8 tag type, U8 length (unsigned)"
+        if ok:
+            ok = any(unsnap(tag.size) is unsnap(v) for v in ln.int_views)
+            why = "the tag bytes are not read with the length the line announces"
+        if ok:
+            ok = is_call_named(raw, "hex2bin") and len(raw.args[1]) == 1
+            why = "the reader is not built over hex2bin(line)"
+        if ok:
+            # the record: a 4-tuple (named tuple) appended to the pending group
+            class _Rec:
+                def __init__(self, e, v):
+                    self.d, self.ctx, self.facts = {"value": v}, e.ctx, getattr(e, "facts", ())
+
+            recs = [_Rec(e, e.d["value"]) for e in res.events if e.kind == "mutate" and e.d["how"] == "append" and unsnap(e.d["value"]).op == "tuple" and len(unsnap(e.d["value"]).args[0]) == 4]
+            recs += [_Rec(e, e.d["args"][0]) for e in res.events if e.kind == "mcall" and e.d["name"] == "append" and len(e.d["args"]) == 1 and unsnap(e.d["args"][0]).op == "tuple" and len(unsnap(e.d["args"][0]).args[0]) == 4]
+            try:
+                fields = prog.fold_name(prog.module(BF3), "Bf2BinLine")
+            except Exception:
+                fields = None
+            import ast as _ast
+
+            names = None
+            for st_ in prog.module(BF3).tree.body:
+                if isinstance(st_, _ast.Assign) and any(isinstance(t_, _ast.Name) and t_.id == "Bf2BinLine" for t_ in st_.targets) and isinstance(st_.value, _ast.Call) and len(st_.value.args) == 2 and isinstance(st_.value.args[1], _ast.Constant):
+                    v_ = st_.value.args[1].value
+                    names = v_.replace(",", " ").split() if isinstance(v_, str) else list(v_)
+                elif isinstance(st_, _ast.ClassDef) and st_.name == "Bf2BinLine":
+                    names = [b_.target.id for b_ in st_.body if isinstance(b_, _ast.AnnAssign) and isinstance(b_.target, _ast.Name)]
+            ok = len(recs) == 1 and names is not None and sorted(names) == sorted(["fwtagtype", "fwtagndx", "fwtag", "rawdata"])
+            why = "a data line is not recorded as one Bf2BinLine(fwtagtype, fwtagndx, fwtag, rawdata)"
+            if ok:
+                vals = dict(zip(names, unsnap(recs[0].d["value"]).args[0]))
+                ok = (any(unsnap(vals["fwtagtype"]) is unsnap(v) for v in typ.int_views) and any(unsnap(vals["fwtagndx"]) is unsnap(v) for v in ndx.int_views)
+                      and unsnap(vals["fwtag"]) is unsnap(tag.result) and unsnap(vals["rawdata"]) is raw)
+                why = "the record's slots are not (tag type read, index read, tag bytes read, decoded line): %s" % {k: show(v, 3) for k, v in vals.items()}
+            if ok:
+                # selection: FF ends the group (yield "load"), FE is skipped, everything else is recorded
+                conds = [(rel(f[1], bool(f[2]))) for f in recs[0].ctx if f[0] == "if"] + [rel(c, bool(p_)) for c, p_ in (getattr(recs[0], "facts", ()) or ())]
+                excl = set()
+                for r_ in conds:
+                    for a_ in ([r_] if r_[0] == "rel" else r_[1] if r_[0] == "and" else []):
+                        if a_[0] == "rel" and a_[1] == "NotEq" and a_[3] is not None:
+                            for x, y in ((a_[2], a_[3]), (a_[3], a_[2])):
+                                if any(unsnap(x) is unsnap(v) for v in typ.int_views) and is_const(unsnap(y)):
+                                    excl.add(cval(unsnap(y)))
+                ok = excl == {0xFF, 0xFE}
+                why = "a line is recorded unless its tag type is FF (end of group) or FE (start of group); found the exclusions %s" % sorted(excl)
+    chk.require(ok, P_("text-line-layout"), fi.qualname, "':' line -> hex2bin -> U16be index, U8 tag type, U8 n, tag[n] -> Bf2BinLine(type, index, tag, line)", where,
+                "every data line is decoded into its four fields with the documented widths and byte order and recorded under the names the payload unpacking reads", why)
+
+
 def unpack_rules(prog, chk, pid):
     P_ = lambda s: "%s.%s" % (pid, s)
     fi = prog.method(BF3 + ".Bf3File", "bf2_unpack_payload")
@@ -652,6 +718,7 @@ def run(prog, chk, tier):
                        "(appended to the run being assembled) -- a must-use rule over all paths; the three conversions are interpreted in the layout domain; the rejection "
                        "guards are located by relational normal form and must dominate the use they protect; the tag-type tables must agree with each other and with the "
                        "pinned domain table; exec_bf2instrs' stores are grouped by the instruction test that encloses them. Execution on concrete BF2 images is not performed.")
+    line_parser_rules(prog, chk, "C13")
     unpack_rules(prog, chk, "C13")
     stackrt.guarded(chk, "C13.import-scenarios", import_scenarios, prog, chk, "C13", tier)
     convert_rules(prog, chk, "C13")
